@@ -28,7 +28,7 @@ func (c *c14) Plan(seed uint64, tier string, worker, workers, idx int) *Plan {
 	r := core.NewRand(core.Mix(seed, 0xc14, uint64(worker), uint64(idx)))
 	p := &Plan{Prop: "C14", Limit0: c14Limits[r.Intn(len(c14Limits))], MaxSteps: 400000}
 	p.Pool = []string{"lifo", "adversarial", "steal", "fifo"}[r.Intn(4)]
-	p.Sched = core.SchedSpec{Kind: []string{"random", "pct", "rtc"}[r.Intn(3)], D: r.Range(1, 3), Preempt: 50 + r.Intn(300), Horizon: 400}
+	p.Sched = core.SchedSpec{Kind: []string{"random", "pct", "rtc", "random", "pct", "rtc", "hold"}[r.Intn(7)], D: r.Range(1, 3), Preempt: 50 + r.Intn(300), Horizon: 400}
 	universe := pickUniverse(r, r.Range(4, 8))
 	// two of the repository's own samples (any format): extensions may hang anywhere on their detection paths
 	for i := 0; i < 2; i++ {
@@ -276,6 +276,18 @@ func (c *c14) Plan(seed uint64, tier string, worker, workers, idx int) *Plan {
 				ops = append(ops, Op{Kind: "lookup", Name: e.Mime, Ext: e})
 			}
 			ops = uses(ops)
+			if slot > 0 && r.Chance(1, 6) {
+				// Extend on something a detection returned: registers nothing, disturbs nothing
+				id := 9000 + g.next
+				g.next++
+				x := universe[r.Intn(len(universe))].Bytes()
+				re := &model.Ext{ID: id, ParentExt: -1, Arr: -1, Mime: fmt.Sprintf("x-verif/r%d", id), Extension: fmt.Sprintf(".r%d", id)}
+				if len(x) > 0 && r.Chance(1, 2) {
+					re.Pred.Contains = 1 + int(x[r.Intn(len(x))])
+				}
+				ops = append(ops, Op{Kind: "extend-result", Slot: 1 + r.Intn(slot), Ext: re, Arr: r.Intn(2)})
+				ops = battery(ops, r.Range(1, 3), false)
+			}
 			if len(p.Arrays) > 0 && r.Chance(1, 3) {
 				ops = append(ops, Op{Kind: "readarr", Arr: 0})
 			}
